@@ -33,8 +33,9 @@ clause), mirroring — quirks included —
                                   scope{name,version,attributes,dropped_attributes_count,schema_url}, time_unix_nano,
                                   observed_time_unix_nano, severity_number, severity_text, body, attributes,
                                   dropped_attributes_count, flags, trace_id, span_id}; kvlist → map (sorted), array →
-                                  slice, int → int64, double → float64; bytes and the EMPTY value are refused
-                                  (the record is rejected)
+                                  slice, int → int64, double → float64; the EMPTY value → nil (JSON null, i.e. no
+                                  field) since the repair c12-10 — before it, it was refused like bytes were (the
+                                  whole record was rejected: `answerOld`); bytes → base64 text (not generated)
 
 What is abstracted: JSON text (tokenisation, escapes, UTF-8) — names and strings are byte lists, a number is its
 token; encoding/json's float64 reading + re-rendering of a number token is an input (`jtok`, computed by the
@@ -467,7 +468,11 @@ def answer (c : Consts) (k : Case) : String :=
   let doc := canonical .direct (flatten tsKey (envEsDoc k.tree))
   let hec := canonical hecNumMode (flatten tsKey (envHec c k.tree))
   let loki := canonical hecNumMode (flatten tsKey (envLoki c k.msg k.tree))
-  let otlp := if hasNullMembers k.tree then "rejected" else canonical .otlp (flatten tsKey (envOtlp c k.bodyTree k.ids k.msg k.tree))
+  let otlp := canonical .otlp (flatten tsKey (envOtlp c k.bodyTree k.ids k.msg k.tree))
   s!"es={es} | esdoc={doc} | hec={hec} | loki={loki} | otlp={otlp}"
+
+/-- BEFORE the repair c12-10 of `extractAnyValue` an event with a null anywhere (sent as the EMPTY AnyValue) was
+refused by the OTLP handler -/
+def otlpRejectedOld (k : Case) : Bool := hasNullMembers k.tree
 
 end SigModel.Spec.Flatten
